@@ -939,9 +939,13 @@ def abs4b(ctx, pid):
         elif fb is not None:
             problems.append((g.node, "cannot interpret how the collapse bit is chosen: `%s`" % tstr(fb)[:60]))
     c = "branch-bits:BinaryTrie._set_branch_node"
-    if problems:
-        node, why = problems[0]
+    concrete = [x for x in problems if not x[1].startswith("cannot interpret")]
+    if concrete:
+        node, why = concrete[0]
         ctx.bad(c, g.loc(node), why)
+    elif problems:
+        node, why = problems[0]
+        ctx.unsure(c, g.loc(node), why)
     elif n < 3:
         ctx.bad(c, g.loc(), "recursions / collapse bit not found")
     else:
